@@ -193,7 +193,9 @@ def session(seq):
     """Build the viewers of a history in ONE process; return per-graph node names (as read by Graphviz)."""
     out = []
     for i in seq:
-        v = DecayChainViewer(chain_dict(SESSION_CHAINS[i], "M", {}))
+        # an operation is a chain index, or [chain index, graph name] for a viewer given a name of its own
+        i, gname = (i, None) if isinstance(i, int) else (i[0], i[1])
+        v = DecayChainViewer(chain_dict(SESSION_CHAINS[i], "M", {}), **({"name": gname} if gname else {}))
         j, err = dot_json(v.to_string())
         if j is None:
             return ("dot-error", err)
@@ -203,20 +205,21 @@ def session(seq):
 
 
 def check_session(seq):
-    st, res = run_forked(session, tuple(seq))
+    st, res = run_forked(session, tuple(s if isinstance(s, int) else tuple(s) for s in seq))
     if st != "ok":
         return [("rejected-by-graphviz", str(res))]
     fails = []
     seen = {}
+    idx = [s if isinstance(s, int) else s[0] for s in seq]
     for gi, (names, tree, problems) in enumerate(res):
-        exp = expected_graph(chain_dict(SESSION_CHAINS[seq[gi]], "M", {}))
+        exp = expected_graph(chain_dict(SESSION_CHAINS[idx[gi]], "M", {}))
         for p in problems:
             fails.append((p + "@session", f"graph {gi} of session {seq}: {p}"))
         if tree is not None and tree != exp:
             fails.append(("graph-differs@session", f"graph {gi} of session {seq} (viewers built one after another in one process):\n observed {tree}\n expected {exp}"))
         if len(set(names)) != len(names):
             fails.append(("duplicate-node-names", f"graph {gi} of session {seq} has repeated node names {names}"))
-        want = 1 + chains.graph_counts(chains.graph(chain_dict(SESSION_CHAINS[seq[gi]], "M", {})))
+        want = 1 + chains.graph_counts(chains.graph(chain_dict(SESSION_CHAINS[idx[gi]], "M", {})))
         if len(names) != want:
             fails.append(("node-count", f"graph {gi} of session {seq} has {len(names)} nodes, expected {want}"))
         for n in names:
@@ -254,6 +257,9 @@ def run(ctx):
     cc = [{p: dict(c) for p, c in d.items()} for d in class_chains()]
     run_tasks(ctx, work_class, [cc[i:i + 40] for i in range(0, len(cc), 40)])
     seqs = [s for n in range(1, (4 if ctx.thorough else 3) + 1) for s in itertools.product(range(len(SESSION_CHAINS)), repeat=n)]
+    # viewers with a graph name of their own mixed with default-named ones (all sequences of length <= 2 over 3 chains x 3 names)
+    named_ops = [[i, g] if g else i for i in (0, 1, 3) for g in (None, "Xdecays", "Other")]
+    seqs += [list(s) for n in (1, 2, 3 if ctx.thorough else 2) for s in itertools.product(named_ops, repeat=n) if any(not isinstance(o, int) for o in s)]
     run_tasks(ctx, work_sessions, [seqs[i:i + 4] for i in range(0, len(seqs), 4)])
     ctx.count(states=len(sc) + len(cc) + len(seqs), transitions=len(sc) + len(cc) + sum(len(s) for s in seqs))
     ctx.part("graphs", from_tables=len(sc), from_class=len(cc), renamings=len(RENAMES))
